@@ -89,12 +89,9 @@ impl FromStr for AttoTokens {
     fn from_str(value_str: &str) -> Result<Self> {
         let mut itr = value_str.splitn(2, '.');
         let converted_units = {
-            let units = itr
-                .next()
-                .and_then(|s| s.parse::<Amount>().ok())
-                .ok_or_else(|| {
-                    EvmError::FailedToParseAttoToken("Can't parse token units".to_string())
-                })?;
+            let units = itr.next().and_then(parse_decimal).ok_or_else(|| {
+                EvmError::FailedToParseAttoToken("Can't parse token units".to_string())
+            })?;
 
             units
                 .checked_mul(Amount::from(TOKEN_TO_RAW_CONVERSION))
@@ -107,26 +104,40 @@ impl FromStr for AttoTokens {
             if remainder_str.is_empty() {
                 Amount::ZERO
             } else {
-                let parsed_remainder = remainder_str.parse::<Amount>().map_err(|_| {
+                let parsed_remainder = parse_decimal(remainder_str).ok_or_else(|| {
                     EvmError::FailedToParseAttoToken("Can't parse token remainder".to_string())
                 })?;
 
                 let remainder_conversion = TOKEN_TO_RAW_POWER_OF_10_CONVERSION
                     .checked_sub(remainder_str.len() as u64)
                     .ok_or(EvmError::LossOfPrecision)?;
-                parsed_remainder * Amount::from(10).pow(Amount::from(remainder_conversion))
+                parsed_remainder
+                    .checked_mul(Amount::from(10).pow(Amount::from(remainder_conversion)))
+                    .ok_or(EvmError::ExcessiveValue)?
             }
         };
 
-        Ok(Self(converted_units + remainder))
+        converted_units
+            .checked_add(remainder)
+            .map(Self)
+            .ok_or(EvmError::ExcessiveValue)
     }
+}
+
+/// Parses a non-empty string of ASCII decimal digits; anything else (signs, radix prefixes,
+/// digit separators, values that do not fit) is refused.
+fn parse_decimal(digits: &str) -> Option<Amount> {
+    if digits.is_empty() || !digits.bytes().all(|b| b.is_ascii_digit()) {
+        return None;
+    }
+    Amount::from_str_radix(digits, 10).ok()
 }
 
 impl Display for AttoTokens {
     fn fmt(&self, formatter: &mut Formatter) -> fmt::Result {
         let unit = self.0 / Amount::from(TOKEN_TO_RAW_CONVERSION);
         let remainder = self.0 % Amount::from(TOKEN_TO_RAW_CONVERSION);
-        write!(formatter, "{unit}.{remainder:09}")
+        write!(formatter, "{unit}.{remainder:018}")
     }
 }
 
